@@ -117,6 +117,8 @@ func removeAll() {
 	})
 	for _, n := range pkgNames {
 		if p := slip.FindPackage(n); p != nil {
+			// the package is discarded: drop its use edges directly instead of one table rebuild per edge
+			p.Uses = nil
 			_ = ev.Try(func() slip.Object {
 				slip.RemovePackage(p)
 				return nil
@@ -129,7 +131,10 @@ func removeAll() {
 			vv.Val = l[:baseFeatures:baseFeatures]
 		}
 	}
-	for _, base := range []*slip.Package{&slip.CLPkg, &slip.UserPkg} {
+	for _, base := range []*slip.Package{&slip.CLPkg, condPkg} {
+		if base == nil {
+			continue
+		}
 		keep := base.Users[:0:0]
 		for _, u := range base.Users {
 			drop := u.Name == ""
@@ -146,7 +151,19 @@ func removeAll() {
 	}
 }
 
+// condPkg holds the condition classes. slip registers them in common-lisp-user only (the package that
+// is current while pkg/clos initialises), and signalling any condition in a package that cannot see the
+// class unbound-variable / undefined-function faults with a nil pointer; that is not the subject of
+// C13, so the test packages use this class-only package besides CL.
+var condPkg *slip.Package
+
 func setup(np int) *world {
+	if condPkg == nil {
+		condPkg = slip.DefPackage("c13cond", nil, "condition classes for the C13 test packages")
+		for _, c := range slip.UserPkg.AllClasses() {
+			condPkg.RegisterClass(c.Name(), c)
+		}
+	}
 	removeAll()
 	if baseFeatures < 0 {
 		if vv := slip.CLPkg.GetVarVal("*features*"); vv != nil {
@@ -158,8 +175,8 @@ func setup(np int) *world {
 	w := &world{scope: slip.NewScope(), np: np, cur: -1}
 	w.scope.Let(slip.Symbol("*error-output*"), &slip.OutputStream{Writer: io.Discard})
 	for i := 0; i < np; i++ {
-		src := "(defpackage :" + pkgNames[i] + " (:use :cl :cl-user))"
-		if o := ev.Eval(w.scope, src); o.Kind != ev.Value {
+		src := "(defpackage :" + pkgNames[i] + " (:use :cl :c13cond))"
+		if o := evalForm(w.scope, src); o.Kind != ev.Value {
 			panic("set-up: " + src + " => " + o.String())
 		}
 	}
